@@ -17,8 +17,8 @@ RULE = (
     "quick, full sweeps in thorough, against the union of the explicit sets. Unicode property built-ins "
     "(alone and mixed into choices): cross-mode equality with the unoptimized interpreter. Case-insensitive "
     "literals of length 1-2 over ASCII letters x all ASCII inputs of that length. Escapes \\n \\r \\t \\\\ \\\" "
-    "\\' \\0, \\xHH for all 256 values, \\u{H..} with 2-6 digits, both hex cases, in string position and both "
-    "range positions, for sampled (quick) / all (thorough) scalar values. A sweep (X, mode) is non-trivial "
+    "\\' \\0, \\xHH for all 256 values, \\u{H..} with 2-6 digits, both hex cases, in string, case-insensitive string, "
+    "PUSH_LITERAL and both range positions, and after an escaped backslash (where they are no escapes), for sampled (quick) / all (thorough) scalar values. A sweep (X, mode) is non-trivial "
     "when its oracle set is neither empty nor everything; distinct by (X, mode, chunk)."
 )
 ASSUMPTIONS = [
